@@ -287,8 +287,8 @@ SIZE_FAMILIES = {
     # openers that share their "*" with what looks like a closer: "/*/ /*/ /*/ ..." never closes anything
     # a lone double quote in a line comment before the nest, another quote after it: a guard that pairs quotes without knowing comments is blind
     "deeply-nested-block-comments-between-unrelated-quotes": lambda n: b'// a 6" nail\n' + b"/*" * (n // 4) + b" x " + b"*/" * (n // 4) + b'\nlet s = "x";\nfn f() { info!("x"); }\n',
-    # braces that never close inside a key-value value: block skipping must neither recurse nor rescan per brace
-    "unclosed-braces-in-a-key-value": lambda n: b"fn f() { info!(a = b " + b"{" * (n // 2) + b' "m"); }\nfn g() { info!("x"); }\n',
+    # brackets that never close inside a key-value value: bracket matching must neither recurse nor rescan per bracket
+    "unclosed-brackets-in-a-key-value": lambda n: b"fn f() { info!(a = b " + b"{([" * (n // 6) + b' "m"); }\nfn g() { info!("x"); }\n',
     "slash-star-slash-chain": lambda n: b"/*/ " * (n // 4) + b'\nfn f() { info!("x"); }\n',
     "long-path-chain-without-bang": lambda n: b"let x = a" + b"::a" * (n // 3) + b';\nfn f() { info!("x"); }\n',
     "long-path-chain": lambda n: b"a" + b"::a" * (n // 3) + b'!("x");\nfn f() { info!("x"); }\n',
@@ -328,7 +328,7 @@ def size_family(v, work, tier, pool):
                 for check in (True, False):
                     jobs.append((fam, size, structured, check, work))
     # recursion probes at full depth in both tiers (they are cheap: a bounded parser rejects or skips them at once)
-    for fam in ("deeply-nested-block-comments", "deeply-nested-comment-openers-in-string-literal", "deeply-nested-comment-openers-after-quote-char", "deeply-nested-block-comments-between-unrelated-quotes", "unclosed-braces-in-a-key-value", "slash-star-slash-chain", "long-path-chain-without-bang", "long-path-chain"):
+    for fam in ("deeply-nested-block-comments", "deeply-nested-comment-openers-in-string-literal", "deeply-nested-comment-openers-after-quote-char", "deeply-nested-block-comments-between-unrelated-quotes", "unclosed-brackets-in-a-key-value", "slash-star-slash-chain", "long-path-chain-without-bang", "long-path-chain"):
         for size in (10 ** 6, 4 * 10 ** 6):
             jobs.append((fam, size, False, True, work))
             jobs.append((fam, size, True, False, work))
